@@ -1,6 +1,35 @@
 package bt
 
-import "encoding/binary"
+import (
+	"bytes"
+	"encoding/binary"
+	"io"
+	"math"
+)
+
+// maxPrealloc is the largest buffer allocated up front for a length-prefixed field. Longer
+// fields are read incrementally so that memory use follows the data actually supplied rather
+// than the (untrusted) length prefix.
+const maxPrealloc = 1 << 16
+
+// readBytes reads exactly n bytes from r. It returns the bytes, the number of bytes read and
+// io.ErrUnexpectedEOF (io.EOF if nothing was read) when r ends early, like io.ReadFull.
+func readBytes(r io.Reader, n uint64) ([]byte, int, error) {
+	if n <= maxPrealloc {
+		b := make([]byte, n)
+		k, err := io.ReadFull(r, b)
+		return b, k, err
+	}
+	if n > math.MaxInt64 {
+		n = math.MaxInt64
+	}
+	var buf bytes.Buffer
+	k, err := io.CopyN(&buf, r, int64(n))
+	if err == io.EOF && k > 0 {
+		err = io.ErrUnexpectedEOF
+	}
+	return buf.Bytes(), int(k), err
+}
 
 // ReverseBytes reverses the bytes (little endian/big endian).
 // This is used when computing merkle trees in Bitcoin, for example.
